@@ -88,26 +88,5 @@ num_double = num_unit('XdlEncoder_number_double', r'^void XdlEncoder::new_number
 num_float = num_unit('XdlEncoder_number_float', r'^void XdlEncoder::new_number\(float x\)\s*$', 16, 'XdlEncoder::new_number(float)')
 num_int = num_unit('XdlEncoder_number_int', r'^void XdlEncoder::new_number\(int x\)\s*$', 11, 'XdlEncoder::new_number(int)')
 
-# decoder side: the JSON two-character escapes (RFC 8259 section 7)
-json_escapes = Unit(
-    'json_escape_decode', 'C05',
-    cuts=parser_cuts(),
-    text=PARSER_C + r'''
-int nondet_int(void);
-void vf_harness(void) {
-  int k = nondet_int(); __CPROVER_assume(0 <= k && k < 8);
-  const char esc[8] = { '"', '\\', '/', 'b', 'f', 'n', 'r', 't' }, val[8] = { '"', '\\', '/', '\b', '\f', '\n', '\r', '\t' };
-  int quotedkey = nondet_int(); __CPROVER_assume(quotedkey == 0 || quotedkey == 1);
-  XdlParser p; p._state = p._prevState = quotedkey ? QPROPERTY : STRING; p._inComment = false; p._unicodeCount = 0; p._ldp = '.';
-  g_cd = 2; g_c0 = OBJECT; g_c1 = ROOT; g_c2 = ROOT; g_buflen = 0; g_buf[0] = 0; g_pushback = 0;
-  XdlParser_step(&p, '\\'); XdlParser_step(&p, esc[k]);
-  __CPROVER_assert(p._state == (quotedkey ? QPROPERTY : STRING) && !p._inComment && g_pushback == 0, "after an escape the decoder is back in the same string / key");
-  __CPROVER_assert(g_buflen == 1 && g_buf[0] == val[k], "the escape denotes the character RFC 8259 section 7 assigns to it");
-  VF_CANARY();
-}
-''',
-    entry=None, unwind=10, floor=3, expect=['assertion'],
-    desc='each JSON two-character escape (\\" \\\\ \\/ \\b \\f \\n \\r \\t), in a string and in a quoted key, decodes to its character and returns to the string',
-    functions=['XdlParser::parse (ESCAPE state)'],
-)
+from units.C06 import json_escapes
 UNITS += [num_double, num_float, num_int, json_escapes]
